@@ -1,1 +1,387 @@
 import FluentModel.ResolverSpec
+/-!
+# Facts about the reference semantics `ResolverSpec` alone: what an evaluation can add to the error log
+
+`SpecAll D env f`: every spec call at fuel `f` extends the log it is given (`LogOk`): a `.val` outcome returns
+`log ++ added`, a `.limit` outcome returns `log ++ added ++ [tooManyPlaceables]`, and no entry of `added` is
+`tooManyPlaceables`; with `D = true` (every select expression of the pattern and of every message and term of
+the bundle has a default variant — true of every parsed resource) no entry is `missingDefault` either, so the
+entries are exactly `reference`, `noValue` and `cyclic` reports.
+-/
+namespace FluentProofs.ResolverRefine
+open FluentModel FluentModel.Syntax FluentModel.Num FluentModel.Resolver FluentModel.ResolverSpec
+
+/-! ## "every select expression has a default variant" -/
+mutual
+def inlineD : Inline Bytes → Bool
+  | .fn _ p n => inlinesD p && namedD n
+  | .term _ _ (some (p, n)) => inlinesD p && namedD n
+  | .placeable e => exprD e
+  | _ => true
+def inlinesD : List (Inline Bytes) → Bool
+  | [] => true
+  | x :: xs => inlineD x && inlinesD xs
+def namedD : List (Bytes × Inline Bytes) → Bool
+  | [] => true
+  | (_, x) :: xs => inlineD x && namedD xs
+def exprD : Expr Bytes → Bool
+  | .inline e => inlineD e
+  | .select s vs => inlineD s && variantsD vs && (defaultVariant vs).isSome
+def variantsD : List (Variant Bytes) → Bool
+  | [] => true
+  | .mk _ v _ :: vs => patD v && variantsD vs
+def patD : List (PatElem Bytes) → Bool
+  | [] => true
+  | e :: es => elemD e && patD es
+def elemD : PatElem Bytes → Bool
+  | .text _ => true
+  | .placeable e => exprD e
+end
+
+def argsD : Option (List (Inline Bytes) × List (Bytes × Inline Bytes)) → Bool
+  | .none => true
+  | some (p, n) => inlinesD p && namedD n
+
+/-- every pattern of the bundle has defaults everywhere -/
+def EnvD (env : Env) : Prop :=
+  (∀ id m, env.msg id = some m →
+    (∀ p, m.value = some p → patD p = true) ∧ ∀ a ∈ m.attributes, patD a.value = true) ∧
+  (∀ id t, env.term id = some t → patD t.value = true ∧ ∀ a ∈ t.attributes, patD a.value = true)
+
+theorem findAttr_D {attrs : List (Attribute Bytes)} {a : Bytes} {p : Pattern Bytes}
+    (h : ∀ x ∈ attrs, patD x.value = true) (hf : findAttr attrs a = some p) : patD p = true := by
+  unfold findAttr at hf
+  cases hx : attrs.find? (fun x => x.id == a) with
+  | none => simp [hx] at hf
+  | some x =>
+    simp [hx] at hf
+    subst hf
+    exact h x (List.mem_of_find?_eq_some hx)
+
+theorem selectVariant_D (env : Env) {vs : List (Variant Bytes)} {s : Value} {v : Pattern Bytes}
+    (h : variantsD vs = true) (hs : selectVariant env vs s = .ok (some v)) : patD v = true := by
+  induction vs with
+  | nil => simp [selectVariant] at hs
+  | cons x rest ih =>
+    obtain ⟨k, val, d⟩ := x
+    simp only [variantsD, Bool.and_eq_true] at h
+    unfold selectVariant at hs
+    simp only [] at hs
+    split at hs
+    · cases hs
+    · simp only [RR.ok.injEq, Option.some.injEq] at hs; subst hs; exact h.1
+    · exact ih h.2 hs
+
+theorem defaultVariant_D {vs : List (Variant Bytes)} {v : Pattern Bytes}
+    (h : variantsD vs = true) (hs : defaultVariant vs = some v) : patD v = true := by
+  induction vs with
+  | nil => simp [defaultVariant] at hs
+  | cons x rest ih =>
+    obtain ⟨k, val, d⟩ := x
+    simp only [variantsD, Bool.and_eq_true] at h
+    simp only [defaultVariant] at hs
+    split at hs
+    · simp only [Option.some.injEq] at hs; subst hs; exact h.1
+    · exact ih h.2 hs
+
+/-! ## the log discipline -/
+
+/-- an entry an evaluation may add on a normal path -/
+def Rep (D : Bool) (x : RErr) : Prop := x ≠ .tooManyPlaceables ∧ (D = true → x ≠ .missingDefault)
+
+def LogOk {α : Type} (D : Bool) (log : List RErr) : Out α → Prop
+  | .val _ _ l' => ∃ added, l' = log ++ added ∧ ∀ x ∈ added, Rep D x
+  | .limit lg => ∃ added, lg = log ++ added ++ [.tooManyPlaceables] ∧ ∀ x ∈ added, Rep D x
+  | _ => True
+
+theorem LogOk.val_refl {α : Type} (D : Bool) (log : List RErr) (a : α) (c : Nat) : LogOk D log (.val a c log) :=
+  ⟨[], by simp, by simp⟩
+
+theorem LogOk.val_add {α : Type} (D : Bool) (log : List RErr) (a : α) (c : Nat) (e : RErr) (h : Rep D e) :
+    LogOk D log (.val a c (log ++ [e])) :=
+  ⟨[e], rfl, by simpa using h⟩
+
+theorem LogOk.trans {α : Type} {D : Bool} {log a1 : List RErr} {r : Out α} (h1 : ∀ x ∈ a1, Rep D x)
+    (h2 : LogOk D (log ++ a1) r) : LogOk D log r := by
+  match r, h2 with
+  | .val _ _ _, ⟨a2, e, h⟩ => exact ⟨a1 ++ a2, by simp [e], by
+      intro x hx; rcases List.mem_append.1 hx with hx | hx; exact h1 x hx; exact h x hx⟩
+  | .limit _, ⟨a2, e, h⟩ => exact ⟨a1 ++ a2, by simp [e], by
+      intro x hx; rcases List.mem_append.1 hx with hx | hx; exact h1 x hx; exact h x hx⟩
+  | .panic _, _ => trivial
+  | .fuel, _ => trivial
+
+/-- continue after a sub-evaluation that returned normally -/
+theorem LogOk.after {α β : Type} {D : Bool} {log l1 : List RErr} {b : β} {c1 : Nat} {r1 : Out β} {r : Out α}
+    (h1 : LogOk D log r1) (e : r1 = .val b c1 l1) (h2 : LogOk D l1 r) : LogOk D log r := by
+  subst e
+  obtain ⟨a1, rfl, ha⟩ := h1
+  exact LogOk.trans ha h2
+
+theorem LogOk.limit_of {α β : Type} {D : Bool} {log l : List RErr} {r1 : Out β}
+    (h1 : LogOk D log r1) (e : r1 = .limit l) : LogOk (α := α) D log (.limit l) := by
+  subst e; exact h1
+
+theorem rep_reference (D : Bool) (k : RefKind) : Rep D (.reference k) := ⟨by simp, by simp⟩
+theorem rep_noValue (D : Bool) (id : Bytes) : Rep D (.noValue id) := ⟨by simp, by simp⟩
+theorem rep_cyclic (D : Bool) : Rep D .cyclic := ⟨by simp, by simp⟩
+
+
+def SpecAll (D : Bool) (f : Nat) : Prop :=
+  (∀ c n es count log, (D = true → EnvD c.env) → (D = true → patD es = true) →
+     LogOk D log (evalElems c f n es count log)) ∧
+  (∀ c p src count log, (D = true → EnvD c.env) → (D = true → patD p = true) →
+     LogOk D log (evalRef c f p src count log)) ∧
+  (∀ c e count log, (D = true → EnvD c.env) → (D = true → exprD e = true) →
+     LogOk D log (evalExpr c f e count log)) ∧
+  (∀ c e count log, (D = true → EnvD c.env) → (D = true → inlineD e = true) →
+     LogOk D log (evalInline c f e count log)) ∧
+  (∀ c e count log, (D = true → EnvD c.env) → (D = true → inlineD e = true) →
+     LogOk D log (evalValue c f e count log)) ∧
+  (∀ c a count log, (D = true → EnvD c.env) → (D = true → argsD a = true) →
+     LogOk D log (evalArgs c f a count log)) ∧
+  (∀ c es count log, (D = true → EnvD c.env) → (D = true → inlinesD es = true) →
+     LogOk D log (evalList c f es count log)) ∧
+  (∀ c es count log, (D = true → EnvD c.env) → (D = true → namedD es = true) →
+     LogOk D log (evalNamed c f es count log))
+
+theorem specAll (D : Bool) : ∀ f, SpecAll D f := by
+  intro f
+  induction f with
+  | zero =>
+    refine ⟨?_, ?_, ?_, ?_, ?_, ?_, ?_, ?_⟩ <;> intros <;>
+      simp [evalElems, evalRef, evalExpr, evalInline, evalValue, evalArgs, evalList, evalNamed, LogOk]
+  | succ f ih =>
+    obtain ⟨iElems, iRef, iExpr, iInl, iVal, iArgs, iList, iNamed⟩ := ih
+    refine ⟨?_, ?_, ?_, ?_, ?_, ?_, ?_, ?_⟩
+    · -- evalElems
+      intro c n es count log hE hD
+      match es with
+      | [] => simp only [evalElems]; exact LogOk.val_refl D log _ _
+      | .text v :: rest =>
+        simp only [evalElems]
+        have h1 := iElems c n rest count log hE (fun d => by have := hD d; simp_all [patD])
+        revert h1
+        generalize evalElems c f n rest count log = r
+        intro h1
+        cases r <;> exact h1
+      | .placeable e :: rest =>
+        simp only [evalElems]
+        split
+        · exact ⟨[], by simp, by simp⟩
+        · have h1 := iExpr c e (count + 1) log hE (fun d => by have := hD d; simp_all [patD, elemD])
+          split
+          · rename_i s c1 l1 hEq
+            have h2 := iElems c n rest c1 l1 hE (fun d => by have := hD d; simp_all [patD])
+            refine LogOk.after h1 hEq ?_
+            revert h2
+            generalize evalElems c f n rest c1 l1 = r
+            intro h2
+            cases r <;> exact h2
+          · rename_i l hEq
+            exact LogOk.limit_of h1 hEq
+          · trivial
+          · trivial
+    · -- evalRef
+      intro c p src count log hE hD
+      simp only [evalRef]
+      split
+      · exact LogOk.val_add D log _ _ _ (rep_cyclic D)
+      · exact iElems _ _ _ _ _ hE hD
+    · -- evalExpr
+      intro c e count log hE hD
+      match e with
+      | .inline e => simp only [evalExpr]; exact iInl c e count log hE (fun d => by have := hD d; simp_all [exprD])
+      | .select sel vs =>
+        simp only [evalExpr]
+        have hDs : D = true → inlineD sel = true ∧ variantsD vs = true ∧ (defaultVariant vs).isSome = true := by
+          intro d; have := hD d; simp_all [exprD]
+        have h1 := iVal c sel count log hE (fun d => (hDs d).1)
+        split
+        · rename_i selector c1 l1 hEq
+          refine LogOk.after h1 hEq ?_
+          split
+          · rename_i v hch
+            refine iElems c _ v c1 l1 hE (fun d => ?_)
+            revert hch
+            split
+            · intro hch; exact selectVariant_D c.env (hDs d).2.1 hch
+            · intro hch; exact selectVariant_D c.env (hDs d).2.1 hch
+            · intro hch; cases hch
+          · split
+            · rename_i v hdv
+              exact iElems c _ v c1 l1 hE (fun d => defaultVariant_D (hDs d).2.1 hdv)
+            · rename_i hdv
+              refine LogOk.val_add D l1 _ _ _ ⟨by simp, fun d => ?_⟩
+              have := (hDs d).2.2
+              simp [hdv] at this
+          · trivial
+          · trivial
+        · rename_i l hEq
+          exact LogOk.limit_of h1 hEq
+        · trivial
+        · trivial
+    · -- evalInline
+      intro c e count log hE hD
+      match e with
+      | .str v => simp only [evalInline]; exact LogOk.val_refl D log _ _
+      | .num v => simp only [evalInline]; exact LogOk.val_refl D log _ _
+      | .placeable e => simp only [evalInline]; exact iExpr c e count log hE (fun d => by have := hD d; simp_all [inlineD])
+      | .var id =>
+        simp only [evalInline]
+        split
+        · split <;> exact LogOk.val_refl D log _ _
+        · split
+          · exact LogOk.val_refl D log _ _
+          · exact LogOk.val_add D log _ _ _ (rep_reference D _)
+      | .msg id attr =>
+        simp only [evalInline]
+        split
+        · exact LogOk.val_add D log _ _ _ (rep_reference D _)
+        · rename_i m hm
+          split
+          · split
+            · rename_i p hp
+              exact iRef c p _ count log hE (fun d => findAttr_D ((hE d).1 id m hm).2 hp)
+            · exact LogOk.val_add D log _ _ _ (rep_reference D _)
+          · split
+            · rename_i p hp
+              exact iRef c p _ count log hE (fun d => ((hE d).1 id m hm).1 p hp)
+            · exact LogOk.val_add D log _ _ _ (rep_noValue D _)
+      | .fn id pos named =>
+        simp only [evalInline]
+        have h1 := iArgs c (some (pos, named)) count log hE (fun d => by have := hD d; simp_all [inlineD, argsD])
+        split
+        · rename_i rp rn c1 l1 hEq
+          refine LogOk.after h1 hEq ?_
+          split
+          · split <;> exact LogOk.val_refl D l1 _ _
+          · exact LogOk.val_add D l1 _ _ _ (rep_reference D _)
+        · rename_i l hEq
+          exact LogOk.limit_of h1 hEq
+        · trivial
+        · trivial
+      | .term id attr args =>
+        simp only [evalInline]
+        have h1 := iArgs c args count log hE (fun d => by
+          have := hD d
+          match args with
+          | .none => rfl
+          | some (p, n) => simp_all [inlineD, argsD])
+        split
+        · rename_i rp named c1 l1 hEq
+          refine LogOk.after h1 hEq ?_
+          split
+          · rename_i p hp
+            refine iRef _ p _ c1 l1 hE (fun d => ?_)
+            revert hp
+            split
+            · rename_i t ht
+              split
+              · intro hp; exact findAttr_D ((hE d).2 id t ht).2 hp
+              · intro hp; simp only [Option.some.injEq] at hp; subst hp; exact ((hE d).2 id t ht).1
+            · intro hp; cases hp
+          · exact LogOk.val_add D l1 _ _ _ (rep_reference D _)
+        · rename_i l hEq
+          exact LogOk.limit_of h1 hEq
+        · trivial
+        · trivial
+    · -- evalValue
+      intro c e count log hE hD
+      have hw : ∀ e : Inline Bytes, (D = true → inlineD e = true) →
+          LogOk D log (match evalInline c f e count log with
+            | .val s count' log' => Out.val (Value.str s) count' log'
+            | .limit l => .limit l
+            | .panic m => .panic m
+            | .fuel => .fuel) := by
+        intro e hD
+        have h1 := iInl c e count log hE hD
+        revert h1
+        generalize evalInline c f e count log = r
+        intro h1
+        cases r <;> exact h1
+      match e with
+      | .str v => simp only [evalValue]; exact LogOk.val_refl D log _ _
+      | .num v => simp only [evalValue]; exact LogOk.val_refl D log _ _
+      | .placeable e => simp only [evalValue]; exact hw _ hD
+      | .msg id attr => simp only [evalValue]; exact hw _ hD
+      | .term id attr args => simp only [evalValue]; exact hw _ hD
+      | .var id =>
+        simp only [evalValue]
+        split
+        · exact LogOk.val_refl D log _ _
+        · split
+          · exact LogOk.val_refl D log _ _
+          · exact LogOk.val_add D log _ _ _ (rep_reference D _)
+      | .fn id pos named =>
+        simp only [evalValue]
+        have h1 := iArgs c (some (pos, named)) count log hE (fun d => by have := hD d; simp_all [inlineD, argsD])
+        split
+        · rename_i rp rn c1 l1 hEq
+          refine LogOk.after h1 hEq ?_
+          split
+          · exact LogOk.val_refl D l1 _ _
+          · exact LogOk.val_add D l1 _ _ _ (rep_reference D _)
+        · rename_i l hEq
+          exact LogOk.limit_of h1 hEq
+        · trivial
+        · trivial
+    · -- evalArgs
+      intro c a count log hE hD
+      match a with
+      | .none => simp only [evalArgs]; exact LogOk.val_refl D log _ _
+      | some (pos, named) =>
+        simp only [evalArgs]
+        have h1 := iList c pos count log hE (fun d => by have := hD d; simp_all [argsD])
+        split
+        · rename_i vs c1 l1 hEq
+          refine LogOk.after h1 hEq ?_
+          have h2 := iNamed c named c1 l1 hE (fun d => by have := hD d; simp_all [argsD])
+          revert h2
+          generalize evalNamed c f named c1 l1 = r
+          intro h2
+          cases r <;> exact h2
+        · rename_i l hEq
+          exact LogOk.limit_of h1 hEq
+        · trivial
+        · trivial
+    · -- evalList
+      intro c es count log hE hD
+      match es with
+      | [] => simp only [evalList]; exact LogOk.val_refl D log _ _
+      | e :: es =>
+        simp only [evalList]
+        have h1 := iVal c e count log hE (fun d => by have := hD d; simp_all [inlinesD])
+        split
+        · rename_i v c1 l1 hEq
+          refine LogOk.after h1 hEq ?_
+          have h2 := iList c es c1 l1 hE (fun d => by have := hD d; simp_all [inlinesD])
+          revert h2
+          generalize evalList c f es c1 l1 = r
+          intro h2
+          cases r <;> exact h2
+        · rename_i l hEq
+          exact LogOk.limit_of h1 hEq
+        · trivial
+        · trivial
+    · -- evalNamed
+      intro c es count log hE hD
+      match es with
+      | [] => simp only [evalNamed]; exact LogOk.val_refl D log _ _
+      | (k, e) :: es =>
+        simp only [evalNamed]
+        have h1 := iVal c e count log hE (fun d => by have := hD d; simp_all [namedD])
+        split
+        · rename_i v c1 l1 hEq
+          refine LogOk.after h1 hEq ?_
+          have h2 := iNamed c es c1 l1 hE (fun d => by have := hD d; simp_all [namedD])
+          revert h2
+          generalize evalNamed c f es c1 l1 = r
+          intro h2
+          cases r <;> exact h2
+        · rename_i l hEq
+          exact LogOk.limit_of h1 hEq
+        · trivial
+        · trivial
+
+end FluentProofs.ResolverRefine
